@@ -34,27 +34,58 @@ type capture struct {
 	units [][]byte
 	sinks int
 	open  int
+	conns map[string]*connLog // C08 mode only: what each connection's sink received, by client address
 }
 
-type capSink struct{ c *capture }
+// connLog is everything the sink of one connection was told (guarded by capture.mu).
+type connLog struct {
+	serial  int      // value of capture.sinks when the sink was created
+	units   []string // Accept calls, in order
+	flushes int      // Flush calls: runConnection flushes the sink after every flush of the framer
+	closed  bool
+}
 
-func (c *capture) NewSink(string, base.ClientNumber) base.MessageReceiverSink {
+type capSink struct {
+	c  *capture
+	lg *connLog
+}
+
+func (c *capture) NewSink(addr string, _ base.ClientNumber) base.MessageReceiverSink {
 	c.mu.Lock()
 	c.sinks++
 	c.open++
+	var lg *connLog
+	if c.conns != nil {
+		lg = &connLog{serial: c.sinks}
+		c.conns[addr] = lg
+	}
 	c.mu.Unlock()
-	return &capSink{c}
+	return &capSink{c, lg}
 }
 
 func (s *capSink) Accept(m []byte) {
 	s.c.mu.Lock()
 	s.c.units = append(s.c.units, append([]byte(nil), m...))
+	if s.lg != nil {
+		s.lg.units = append(s.lg.units, string(m))
+	}
 	s.c.mu.Unlock()
 }
-func (s *capSink) Flush() {}
+
+func (s *capSink) Flush() {
+	if s.lg != nil {
+		s.c.mu.Lock()
+		s.lg.flushes++
+		s.c.mu.Unlock()
+	}
+}
+
 func (s *capSink) Close() {
 	s.c.mu.Lock()
 	s.c.open--
+	if s.lg != nil {
+		s.lg.closed = true
+	}
 	s.c.mu.Unlock()
 }
 
@@ -290,92 +321,7 @@ func runDisconnectCycles(disconnect string) (string, string) {
 	return "listener:descriptor-leak-per-disconnect", fmt.Sprintf("after %d sequential clients that disconnected (%s) the process holds %d more open descriptors than before, still a minute later: the agent does not close its side of the connections", n, disconnect, growth)
 }
 
-// runDeadlineRenewal: a connection old enough for its read deadline to have been renewed once, then a multi-line record
-// split into two TCP segments a few milliseconds apart — far less than the flush interval, so no flush pause separates
-// them and the continuation must stay attached. The flush interval is 5 s for this connection (deadline 10 s ahead, renewed
-// when less than 5 s remain): after the renewal behind the pause, the next legitimate flush is at least 5 s away. The
-// case measures the wall time from the end of the pause to the last observation; if the harness itself stalled for more
-// than 3 s the attempt proves nothing and is repeated (never a verdict).
-func runDeadlineRenewal(nCont int, cutAfter int) (string, string) {
-	for attempt := 0; attempt < 5; attempt++ {
-		key, msg, stalled := renewalAttempt(nCont, cutAfter)
-		if !stalled {
-			return key, msg
-		}
-	}
-	return "", ""
-}
-
-func renewalAttempt(nCont int, cutAfter int) (key, msg string, stalled bool) {
-	r := getRig()
-	saved := defs.InputFlushInterval
-	defs.InputFlushInterval = 5 * time.Second
-	r.cap.mu.Lock()
-	sinksBefore := r.cap.sinks
-	r.cap.mu.Unlock()
-	conn, err := net.Dial("tcp", r.addr)
-	if err != nil {
-		defs.InputFlushInterval = saved
-		return "listener:connect-refused", err.Error(), false
-	}
-	caseSerial++
-	id := fmt.Sprintf("renew%d", caseSerial)
-	head, next := rec(id+"-multi"), rec(id+"-next")
-	conn.Write([]byte(rec(id+"-first") + "\n"))
-	waitFor(func() bool { r.cap.mu.Lock(); defer r.cap.mu.Unlock(); return r.cap.sinks > sinksBefore })
-	time.Sleep(50 * time.Millisecond)
-	defs.InputFlushInterval = saved // the wrapper of this connection keeps its own copy
-	time.Sleep(6 * time.Second)     // longer than the flush interval: the next read entry renews the deadline
-	// The read that returns the first record behind the pause was entered before the pause: the NEXT read entry renews the
-	// deadline, and the flush "for deadline update" follows the read after that. Four single-line records, each sent only
-	// after the one before the previous was emitted (i.e. after the agent has processed the previous write), guarantee
-	// that the renewal AND its flush lie behind us when the split record is sent — by observation, not by sleeping.
-	start := time.Now()
-	var t [4]string
-	for i := range t {
-		t[i] = rec(fmt.Sprintf("%s-absorb%d", id, i))
-		conn.Write([]byte(t[i] + "\n"))
-		if i > 0 {
-			prev := t[i-1]
-			waitFor(func() bool { return r.cap.count(prev, true) >= 1 })
-		}
-	}
-	lines := []string{head}
-	for i := 0; i < nCont; i++ {
-		lines = append(lines, fmt.Sprintf("  continuation line %d of %s", i+1, id))
-	}
-	want := strings.Join(lines, "\n")
-	seg1 := strings.Join(lines[:cutAfter], "\n") + "\n"
-	seg2 := strings.Join(lines[cutAfter:], "\n") + "\n" + next + "\n"
-	conn.Write([]byte(seg1))
-	time.Sleep(5 * time.Millisecond)
-	conn.Write([]byte(seg2))
-	waitFor(func() bool { return r.cap.count(head, false) >= 1 && r.cap.count(t[3], true) >= 1 })
-	// (the record in question is emitted when `next` arrives behind it; `next` itself at the close, by FlushAll)
-	elapsed := time.Since(start)
-	conn.Close()
-	waitFor(func() bool { return r.cap.count(next, true) >= 1 })
-	if elapsed > 3*time.Second {
-		return "", "", true
-	}
-	if n := r.cap.count(want, true); n != 1 {
-		got := r.cap.count(head, false)
-		return "flush:between-segments-without-pause", fmt.Sprintf("a multi-line record (%d continuation lines) sent in two segments 5 ms apart on a connection whose read deadline had been renewed came out intact %d times (units starting with its head: %d) within %v: a flush fell between the segments although the flush interval is 5 s and the renewal flush had already happened", nCont, n, got, elapsed), false
-	}
-	return "", "", false
-}
-
 var flagProp = flag.String("prop", "C07", "C07: bad input and disconnects; C08: framing vs flush timing on a long-lived connection")
-
-func enumerateC08(ctx *seq.Ctx) {
-	ctx.Group("listener/deadline-renewal")
-	for n := 1; n <= 3; n++ {
-		for cut := 1; cut <= n; cut++ {
-			n, cut := n, cut
-			ctx.Case(fmt.Sprintf("renewal/cont%d/cut%d", n, cut), true, fmt.Sprint(n, cut), func() (string, string) { return runDeadlineRenewal(n, cut) })
-		}
-	}
-}
 
 func enumerate(ctx *seq.Ctx) {
 	ctx.Group("listener/disconnect-cycles")
@@ -405,20 +351,7 @@ func main() {
 	logger.SetLogLevel(logger.ErrorLevel)
 	flag.Parse()
 	if *flagProp == "C08" {
-		seq.Main(&seq.Config{
-			Property: "C08",
-			Level:    "exploration",
-			Rule: "listener level on a real loopback socket: a connection that has outlived one read-deadline renewal (flush interval 5 s, 6 s idle) receives a multi-line record of 1..3 continuation lines " +
-				"split at every line boundary into two TCP segments 5 ms apart; oracle: the record comes out as ONE unit (no flush fell between the segments: the renewal flush is absorbed beforehand by observation, " +
-				"the next one is at least 5 s away; attempts whose measured window exceeded 3 s are repeated, never judged)",
-			Assumptions: []string{
-				"real threads and sockets: the product of record shapes x cut positions is enumerated, the thread schedule is what the runtime produces",
-				"complements seq_framing (all fragmentations x all flush placements on the framer): this part decides that runConnection flushes only on a deadline renewal or a read timeout",
-			},
-			Enumerate:  enumerateC08,
-			MaxProcs:   6,
-			WorkerArgs: []string{"-prop", "C08"},
-		})
+		mainC08()
 		return
 	}
 	seq.Main(&seq.Config{
